@@ -62,6 +62,9 @@ func (r *BatchedPrivateTokenRequest) Marshal() []byte {
 }
 
 func (r *BatchedPrivateTokenRequest) Unmarshal(data []byte) bool {
+	// Drop any cached encoding of the value held before
+	r.raw = nil
+
 	s := cryptobyte.String(data)
 
 	var tokenType uint16
